@@ -193,6 +193,10 @@ def run(ctx):
         # what a document registered is gone when its scope ends: no hidden strong owner, no reuse by the next document (shared rule, C15)
         from .C15 import rule_reset_complete
         rule_reset_complete(ctx, fx, config, prop="C14")
+        # a shared node that contains aliases replays completely: every delivered event (replayed ones included) is recorded into
+        # the open anchor frames, so the plain copies read from `second: *l` equal those read from its definition (shared rule, C02)
+        from .C02 import rule_record
+        rule_record(ctx, fx, config, prop="C14")
         kinds_adt = [v["name"] for v in fx.adt("anchor_store::AnchorKind")["variants"]]
         store_fields = [x["name"] for x in fx.adt("anchor_store::AnchorStore")["variants"][0]["fields"]]
         ctx.check(sorted(snake(k) for k in kinds_adt) == sorted(store_fields), "TABLE", "C14:TABLE:kinds-vs-store-fields", "one store field per AnchorKind (%s)" % store_fields,
